@@ -678,6 +678,57 @@ func init() {
 		r.assign(x.t, x.get())
 		return nil
 	})
+	reg("(reflect.Value).SetLen", func(i *interpreter, fr *frame, args []value) value {
+		r := args[0].(rval)
+		r.settable("SetLen")
+		s, ok := r.get().([]value)
+		if _, isSlice := r.t.Underlying().(*types.Slice); !isSlice || (!ok && r.get() != nil) {
+			reflectPanic("call of reflect.Value.SetLen on %s Value", kindOfType(r.t))
+		}
+		n := int(asInt64(args[1]))
+		if n < 0 || n > cap(s) {
+			reflectPanic("reflect: slice length out of range in SetLen")
+		}
+		*r.addr = s[:n]
+		return nil
+	})
+	reg("(reflect.Value).SetCap", func(i *interpreter, fr *frame, args []value) value {
+		r := args[0].(rval)
+		r.settable("SetCap")
+		s, ok := r.get().([]value)
+		if _, isSlice := r.t.Underlying().(*types.Slice); !isSlice || (!ok && r.get() != nil) {
+			reflectPanic("call of reflect.Value.SetCap on %s Value", kindOfType(r.t))
+		}
+		n := int(asInt64(args[1]))
+		if n < len(s) || n > cap(s) {
+			reflectPanic("reflect: slice capacity out of range in SetCap")
+		}
+		*r.addr = s[:len(s):n]
+		return nil
+	})
+	reg("(reflect.Value).Slice", func(i *interpreter, fr *frame, args []value) value {
+		r := args[0].(rval)
+		r.mustValid("Slice")
+		lo, hi := int(asInt64(args[1])), int(asInt64(args[2]))
+		switch v := r.get().(type) {
+		case []value:
+			if lo < 0 || hi < lo || hi > cap(v) {
+				reflectPanic("reflect.Value.Slice: slice index out of bounds")
+			}
+			return rval{t: r.t, v: v[lo:hi], ro: r.ro}
+		case string:
+			if lo < 0 || hi < lo || hi > len(v) {
+				reflectPanic("reflect.Value.Slice: string slice index out of bounds")
+			}
+			return rval{t: r.t, v: v[lo:hi], ro: r.ro}
+		case nil:
+			if _, isSlice := r.t.Underlying().(*types.Slice); isSlice && lo == 0 && hi == 0 {
+				return rval{t: r.t, v: v, ro: r.ro}
+			}
+		}
+		unsupportedf("reflect.Value.Slice on %s", r.t)
+		return nil
+	})
 	reg("(reflect.Value).SetZero", func(i *interpreter, fr *frame, args []value) value {
 		r := args[0].(rval)
 		r.settable("SetZero")
